@@ -167,8 +167,11 @@ def _helper_facts(chk, ctx) -> None:
     pp = base.methods.get('_parse_players')
     if pp is not None:
         facts('C20.driver', 'REParser._parse_players', pp, {
-            'every player named in an event line is collected': bool(m.calls(pp.node, "players.add(m['player'])")),
-            'over all lines': bool(m.fors(pp.node, 's.splitlines()')),
+            # (a loop that adds to a set, or the set comprehension over the same two generators)
+            'every player named in an event line is collected': bool(m.calls(pp.node, "players.add(m['player'])")) or any(
+                isinstance(n, ast.SetComp) and m.eq(T.norm(n.elt), "m['player']", fn=pp.node) for n in ast.walk(pp.node)),
+            'over all lines': bool(m.fors(pp.node, 's.splitlines()')) or any(
+                isinstance(n, ast.SetComp) and n.generators and m.eq(T.norm(n.generators[0].iter), 's.splitlines()', fn=pp.node) for n in ast.walk(pp.node)),
         }, 'the players of a hand are everybody who posts, folds, calls, raises or shows')
     pv, ppv = base.methods.get('_parse_variables'), base.methods.get('_parse_player_variables')
     if pv is not None:
